@@ -12,7 +12,13 @@ PROP = {'streams': [('c20', 30000, 3000000)],
          'document that produced a rendered labelled span or still parsed and ran a downstream stage; distinct by family+bytes. Request lines = '
          '`like` boundary cases (all patterns over {a,b,*} up to length 4 x all texts up to length 4, plus random) against the index-form mirror '
          'whose reply carries `panic:<site>` / `fuel` outcomes, and datetime() strings (fixed boundary list + 1-2 char mutations incl. multi-byte '
-         'chars) against the panic-site-explicit mirror of parse_datetime',
+         'chars) against the panic-site-explicit mirror of parse_datetime; `np-set` lines = <Set as FromIterator<Value>>::from_iter on 0..7 values '
+         '(literals, extension values, nested sets/records, repeats) against the mirror with the unreachable!() arm explicit (reply = fast/slow + '
+         'size; Set::new must agree); `np-binop` lines = the public helpers binary_relation / binary_arith called directly with ALL 12 operators '
+         '(reply (ok v)/(err class)/panic - a panic for an operator outside the helper\'s documented contract is the expected answer and must '
+         'match the mirror; inside the contract it is a failure); `np-unescape` lines = to_unescaped_string + Display of every returned error '
+         '(concatenations and truncations of an escape-atom dictionary incl. multi-byte chars) against the range-explicit mirror of '
+         'Unescape::unescape (reply = the slices shown)',
  'theorems': ['no_panic_wildcard',
               'wmIdx_eq_M',
               'no_panic_contains_at_least_two',
@@ -20,10 +26,39 @@ PROP = {'streams': [('c20', 30000, 3000000)],
               'no_panic_datetime_captures',
               'capture_parses_u32',
               'slice_after_prefix',
-              'offset_timedelta_in_range'],
- 'assumptions': ['theorems cover the mirrored components only (wildcard_match, contains_at_least_two, the datetime/duration capture unwraps); for '
+              'offset_timedelta_in_range',
+              'no_panic_set_from_iter',
+              'set_from_iter_fast_repr',
+              'no_panic_record_residual',
+              'no_panic_record_residual_of_expr',
+              'record_residual_eq_model',
+              'expr_record_refuses_duplicate',
+              'no_panic_binary_dispatch',
+              'binary_dispatch_eq_applyBinary',
+              'binary_relation_panics_iff',
+              'binary_arith_panics_iff',
+              'no_panic_partial_response',
+              'no_panic_partial_response_trivial',
+              'partial_response_panics_iff',
+              'partial_response_panic_reachable',
+              'no_panic_policyset_op',
+              'no_panic_policyset_history',
+              'no_panic_policyset_merge',
+              'unescape_ranges_on_boundaries',
+              'no_panic_unescape_slices'],
+ 'assumptions': ['theorems cover the mirrored components only (wildcard_match, contains_at_least_two, the datetime capture unwraps/slices, '
+                 'FromIterator<Value> for Set, the Record arm\'s Expr::record(..).expect, the binary-operator dispatch, the PartialResponse accessors, '
+                 'the PolicySet panic! sites (proved in C08), the unescape ranges/slices); for '
                  "every other entry point the evidence is 'no panic on the explored inputs', counted per entry point in coverage.distribution "
                  '(ep.<name>.tried/ok/err)',
+                 'data-structure invariants used as hypotheses: the keys of a record expression are pairwise distinct (it holds a BTreeMap) for '
+                 'no_panic_record_residual; the policy-set invariant (established by every admissible history, C08) for no_panic_policyset_op; '
+                 'no residual keeps a template slot for no_panic_partial_response - this one is NOT guaranteed by the implementation (known '
+                 'finding C13-residual-slot-panic, reproduced as theorem partial_response_panic_reachable; debug builds only: the expect is under '
+                 'cfg(debug_assertions))',
+                 'binary_relation / binary_arith are public and panic when called directly with an operator outside their documented contract '
+                 '(binary_relation_panics_iff, binary_arith_panics_iff; 3183 such calls in the quick stream, all answered `panic` by the mirror '
+                 'too); the evaluator never does (no_panic_binary_dispatch). Recorded as a documented precondition of an internal helper, not as a finding',
                  'nesting depth <= 48; level validation is skipped for documents with more than 10 conditionals and FFI format calls with |width| > '
                  '100000 are skipped (both behaviours are reported separately as known findings by dedicated probes)',
                  'aborts (stack overflow, allocation failure) and hangs are detected per child process and attributed to the case via a progress '
@@ -32,11 +67,19 @@ PROP = {'streams': [('c20', 30000, 3000000)],
 TEXT = ('Lean theorems that the panic sites kept explicit in the mirrors are unreachable for ALL inputs: the index-form mirror of Pattern::wildcard_match '
  '(`pattern[j]`, `text[i]`, fuel) never panics and equals the declarative matcher; `contains_at_least_two` always slices on a char boundary inside '
  'the string; the `unwrap`s after the datetime/duration regex captures (<=4-digit numbers into u32, offset TimeDelta in range, ASCII-prefix slices) '
- 'cannot fail. Correspondence: the `like` boundary stream is answered by the compiled index-form mirror (a `panic:`/`fuel` reply would show in the '
- 'diff). Every other text/JSON/bytes entry point (policies, templates, expressions, both schema syntaxes, entities, contexts, EST, protobuf, FFI '
+ 'cannot fail; the `unreachable!()` of `FromIterator<Value> for Set` is never taken and the built set satisfies FastRepr; the three '
+ '`unreachable!` arms behind the evaluator\'s binary-operator dispatch are never taken (the dispatch equals the one-level table of the C01 model) '
+ 'while the public helpers binary_relation/binary_arith panic exactly outside their contract; every callback range of Unescape::unescape is '
+ 'ordered, in bounds and on char boundaries, so `&bytes[range]` in to_pattern and `&input[range]` in Display for UnescapeError cannot panic. Under '
+ 'a named invariant: `Expr::record(..).expect(..)` in the Record arm of both evaluators (keys of the record expression pairwise distinct); the '
+ 'PolicySet panic! sites (C08 invariant, cited). PartialResponse: no accessor panics iff no residual keeps a template slot - and that DOES happen '
+ '(theorem partial_response_panic_reachable = known finding C13-residual-slot-panic); definitely_satisfied/must_be_determining never panic. '
+ 'Correspondence: the `like` boundary stream is answered by the compiled index-form mirror (a `panic:`/`fuel` reply would show in the '
+ 'diff); datetime(), Set::from_iter, binary_relation/binary_arith (all 12 operators, panics included) and to_unescaped_string+Display are '
+ 'answered by their site-explicit mirrors. Every other text/JSON/bytes entry point (policies, templates, expressions, both schema syntaxes, entities, contexts, EST, protobuf, FFI '
  'JSON) and every pipeline parse -> {print, to_json, format, validate, authorize, link, encode} plus rendering of every error/warning is exercised '
  'by a malformed-input stream in child processes under catch_unwind.',
- 'PARTIAL BY DESIGN: the theorems cover only the three mirrored components. For all unmodelled entry points (parser, CST->AST, error rendering, '
+ 'PARTIAL BY DESIGN: the theorems cover only the mirrored components (nine groups of sites, listed in the header of Thm/C20.lean). For all unmodelled entry points (parser, CST->AST, error rendering, '
  "schema code, EST, protobuf, FFI, formatter, validator, authorizer glue) the evidence is 'no panic on the explored inputs' — a count per entry "
  'point (evidence coverage.distribution: ep.<entry point>.ok / .err, epgroup.<group>.inputs, pipeline.<stage>, render.*), NOT a theorem; nesting '
  'depth <= 48; aborts/hangs are caught per child process')
